@@ -283,6 +283,15 @@ def handleObj (st : DState) (parts : List String) : Option (DState × String) :=
         some (st, "M=" ++ fl ++ " V=" ++ (match v with | some x => showVal x | none => "-"))
       | none => some (st, "bad-op")
     | _, _, _ => some (st, "bad-op")
+  | ["autogen", tid, md] =>
+    match parseNat tid, parseSort md with
+    | some ti, some mode =>
+      let showF := fun (fs : List AField) =>
+        if fs.isEmpty then "-" else ";".intercalate (fs.map fun f =>
+          hexOf f.name ++ ":" ++ (if f.route.isEmpty then "-" else ".".intercalate (f.route.map toString)) ++ ":" ++
+          toString f.ty ++ ":" ++ (if f.omitEmpty then "1" else "0"))
+      some (st, "M=" ++ showF (exploreFields st.types uTab ti mode) ++ " S=" ++ showF (promoted st.types uTab ti))
+    | _, _ => some (st, "bad-op")
   | ["roundtrip", f, aid, tid, ln, ind, val] =>
     match parseNat aid, parseNat tid, parseHex ind with
     | some ai, some ti, some indent =>
